@@ -254,7 +254,11 @@ static std::string c11_config(Rng &r, const World &w, int *cls) {
     if (r.chance(1, 2)) { s.has_facility = true; s.facility = r.chance(1, 6) ? "invalid" : FAC_NAMES[r.below(20)]; }
     if (r.chance(1, 2)) { s.has_level = true; s.level = r.chance(1, 6) ? "invalid" : LEV_NAMES[r.below(8)]; }
     if (r.chance(1, 2)) { s.has_ident = true; s.ident = "ident" + std::to_string(r.below(100)); }
-    if (r.chance(1, 2)) { s.has_errlog = true; s.errlog = r.chance(1, 2) ? "yes" : r.chance(1, 2) ? "no" : "garbage"; }
+    // settings that make the dispatch of a record fail inside the library (ident or path template larger than its buffer): with error logging on,
+    // an error is raised while an error is being reported
+    if (r.chance(1, 6)) { s.has_ident = true; s.ident = r.chance(1, 2) ? "ident" + std::string(300, 'i') : "%{cmdline}|%{cmdline}|%{filename}"; if (r.chance(1, 2)) { s.has_output = true; s.output = "devlog"; } }
+    if (r.chance(1, 8)) { s.has_output = true; s.output = "file:/log/c11-"; for (int k = 0; k < 14; k++) s.output += "%{cmdline}"; }
+    if (r.chance(1, 2)) { s.has_errlog = true; s.errlog = r.chance(2, 3) ? "yes" : r.chance(1, 2) ? "no" : "garbage"; }
     if (r.chance(1, 2)) { s.has_dsmax = true; s.dsmax = r.chance(1, 5) ? "junk" : std::to_string(r.range(255, 400)); }
     if (r.chance(1, 2)) { s.has_logmax = true; s.logmax = r.chance(1, 5) ? "0" : std::to_string(r.range(255, 600)); }
     std::string f = s.render(r, true);
